@@ -99,6 +99,9 @@ func genNonce(pfx string, max int) ([][]byte, *eat.Nonce) {
 // harness can draw several independent claims-sets.
 var verifGenPfx string
 
+// verifGenNilElems: component lists may contain nil elements (decoded `null`), C05 only.
+var verifGenNilElems bool
+
 func gn(name string) string { return verifGenPfx + name }
 
 type genSw struct {
@@ -156,7 +159,12 @@ func genSwComponents(pfx string, maxN, strMax int) *genSws {
 	for i := 0; i < n; i++ {
 		c := genSwComponent(ndName(pfx, i), strMax)
 		g.comps = append(g.comps, c)
-		vals = append(vals, c.sc)
+		if verifGenNilElems {
+			// a decoder fills a list element given as null with a nil pointer
+			vals = append(vals, ndOpt(ndName(pfx, i)+".notnull", c.sc))
+		} else {
+			vals = append(vals, c.sc)
+		}
 	}
 	g.container = &SwComponents[*SwComponent]{values: vals}
 	return g
